@@ -6,6 +6,7 @@ import (
 
 	"github.com/ysugimoto/falco/v2/ast"
 	"github.com/ysugimoto/falco/v2/interpreter/exception"
+	"github.com/ysugimoto/falco/v2/interpreter/limitations"
 	"github.com/ysugimoto/falco/v2/lexer"
 	"github.com/ysugimoto/falco/v2/parser"
 )
@@ -26,7 +27,16 @@ func (i *Interpreter) resolveIncludeStatement(statements []ast.Statement, isRoot
 			if err != nil {
 				return nil, exception.Runtime(&stmt.GetMeta().Token, "%s", err.Error())
 			}
+			if i.includeDepth >= limitations.MaxIncludeDepth {
+				return nil, exception.Runtime(
+					&stmt.GetMeta().Token,
+					"include of '%s' is nested more than %d levels deep, the module probably includes itself",
+					include.Module.Value, limitations.MaxIncludeDepth,
+				)
+			}
+			i.includeDepth++
 			recursive, err := i.resolveIncludeStatement(included, isRoot)
+			i.includeDepth--
 			if err != nil {
 				return nil, err
 			}
